@@ -328,3 +328,18 @@ func isNodeInstaller(r *engine.Run, c ssa.CallInstruction) bool {
 	ins, st := mptStoreFn(r, "")
 	return g == ins || (st != nil && g == st)
 }
+
+// callsInstaller: g (a same-receiver helper of the merge) installs nodes: it calls
+// insertNode / the store function directly.
+func callsInstaller(r *engine.Run, g *ssa.Function) bool {
+	if g == nil || len(g.Blocks) == 0 {
+		return false
+	}
+	found := false
+	engine.Instrs(g, func(in ssa.Instruction) {
+		if c, ok := in.(*ssa.Call); ok && isNodeInstaller(r, c) {
+			found = true
+		}
+	})
+	return found
+}
